@@ -1,4 +1,4 @@
-#!/usr/bin/env python3
+#!/venv/bin/python
 """tools/fingerprint.py [--write]   AST fingerprints (comments/whitespace-insensitive) of every module under /repo/xdis,
 recorded in ref/source_fingerprints.json when the hand-written Models were last reconciled with the source.
 ./check compares the current source with this record: a property whose anchored files changed since then is run
@@ -25,6 +25,7 @@ def fingerprints(repo=REPO):
                 except (SyntaxError, UnicodeDecodeError, OSError) as e:
                     h = "unparsable:" + type(e).__name__
                 out[os.path.relpath(p, repo)] = h
+    out["(python)"] = "%d.%d" % sys.version_info[:2]      # ast.dump is not stable across Python versions
     return out
 
 
